@@ -473,6 +473,55 @@ def r_regex_verbatim(ck: Checker) -> None:
         ck.incomplete("R-GRAM-EXH", None, None, "no re.compile call found in RegexMatcher (1 confirmed by hand)")
 
 
+def r_regex_text_verbatim(ck: Checker, rule: str = "R-GRAM-EXH") -> None:
+    """The text between the quotes of a pattern is the regex: the grammar's escapes (\\" and \\\\) are regex escapes as well, so the
+    interpreter hands the text over untouched.  Positive pattern: the value given to RegexMatcher in the interpreter goes through a text
+    transformation (replace / re.sub / decode / literal_eval / translate), directly or in a one-expression helper — `\\\\d` (a literal
+    backslash and a d) becomes `\\d` (a digit)."""
+    c = ck.repo.cls(PAT, "PatternDefInterpreter")
+    mod_ = c.mod
+    helpers = {st.name: st for st in ast.walk(mod_.tree) if isinstance(st, ast.FunctionDef)}
+    EDITS = ("replace", "decode", "translate", "sub", "literal_eval", "unescape", "strip", "lstrip", "rstrip", "lower", "upper", "casefold", "escape")
+    n = 0
+    for st in c.node.body:
+        if not isinstance(st, ast.FunctionDef):
+            continue
+        for fn in (st,):
+            for x in ast.walk(fn):
+                if not (isinstance(x, ast.Call) and dotted(x.func) == "RegexMatcher"):
+                    continue
+                n += 1
+                args = list(x.args) + [k.value for k in x.keywords if k.arg in ("_re_str", "re_str", "pattern")]
+                hit = None
+                work = list(args)
+                seen = 0
+                while work and seen < 40:
+                    e = work.pop()
+                    seen += 1
+                    for y in ast.walk(e):
+                        if isinstance(y, ast.Call):
+                            name = (dotted(y.func) or "").split(".")[-1] if dotted(y.func) else (y.func.attr if isinstance(y.func, ast.Attribute) else "")
+                            if name in EDITS:
+                                hit = y
+                            elif isinstance(y.func, ast.Name) and y.func.id in helpers:
+                                work.extend(r.value for r in ast.walk(helpers[y.func.id]) if isinstance(r, ast.Return) and r.value is not None)
+                            elif isinstance(y.func, ast.Attribute) and norm(y.func.value) == "self" and y.func.attr in helpers:
+                                work.extend(r.value for r in ast.walk(helpers[y.func.attr]) if isinstance(r, ast.Return) and r.value is not None)
+                        elif isinstance(y, ast.Name) and isinstance(y.ctx, ast.Load):
+                            # a local bound once in this callback
+                            binds = [a.value for a in ast.walk(fn) if isinstance(a, ast.Assign) and len(a.targets) == 1 and isinstance(a.targets[0], ast.Name) and a.targets[0].id == y.id]
+                            if len(binds) == 1 and not any(b is e for b in binds) and seen < 30:
+                                work.append(binds[0])
+                what = f"PatternDefInterpreter.{st.name}: the quoted text reaches RegexMatcher as the user wrote it"
+                if hit is not None:
+                    ck.violation(rule, (mod_.rel, f"PatternDefInterpreter.{st.name}"), hit, what, positive=True,
+                                 construct=f"PatternDefInterpreter.{st.name}: the regex text goes through `{norm(hit)[:50]}` before it is compiled — escapes the user wrote for the regex engine are rewritten")
+                else:
+                    ck.holds(rule, (mod_.rel, f"PatternDefInterpreter.{st.name}"), x, what)
+    if n == 0:
+        ck.incomplete(rule, None, None, "no RegexMatcher(...) construction found in PatternDefInterpreter (1 confirmed by hand)")
+
+
 def r_every_subtree_visited(ck: Checker, rule: str = "R-VAR-ORDER") -> None:
     """Compiling a sub-pattern is not a pure function of its parse tree: visiting it registers the capture names it contains, and that
     registration is what rejects a capture name used twice / a variable used before its capture.  Positive pattern: a callback of the
@@ -702,6 +751,7 @@ def run(ck: Checker) -> None:
     ck.guard("R-VAR-ORDER", lambda: r_var_order(ck))
     ck.guard("R-VAR-ORDER", lambda: r_every_subtree_visited(ck))
     ck.guard("R-GRAM-EXH", lambda: r_regex_verbatim(ck))
+    ck.guard("R-GRAM-EXH", lambda: r_regex_text_verbatim(ck))
     ck.guard("R-GRAM-EXH", lambda: r_all_names_resolved(ck))
     from .c07 import r_xp_cache_key
     ck.guard("R-NO-MEMO", lambda: r_xp_cache_key(ck, rule="R-NO-MEMO"))
